@@ -285,7 +285,8 @@ Inductive obs :=
           (results : list tres)                            (* per thread *)
           (peeks : list binding)                           (* oldest first *)
           (final : binding)
-| OOnce (count : N) (reads : list (option N)) (cached : option N)
+          (stuck : bool)   (* the harness watchdog fired: some caller neither returned, parked nor blocked *)
+| OOnce (count : N) (reads : list (option N)) (cached : option N) (stuck : bool)
 | OOnceFree (readers distinct faults : N) (refmatch : bool)
 | ORace (built : bool) (races errors : N).
 
@@ -294,10 +295,10 @@ Definition model (i : input) : obs :=
   | Notify c evs =>
       let s := run_evs c evs init in
       ONotify (rev (map run_tuple (s_runs s))) (rev (s_outs s))
-              (map (tres_of s) (seq 0 (nthreads c))) (rev (s_peeks s)) (s_bound s)
+              (map (tres_of s) (seq 0 (nthreads c))) (rev (s_peeks s)) (s_bound s) false
   | OnceRun cands evs =>
       let s := run_oevs cands evs oinit in
-      OOnce (N.of_nat (o_count s)) (map (oread s) (seq 0 (length cands))) (o_val s)
+      OOnce (N.of_nat (o_count s)) (map (oread s) (seq 0 (length cands))) (o_val s) false
   | OnceFree n => OOnceFree n 1 0 true
   | Race _ _ => ORace true 0 0
   end.
@@ -316,11 +317,11 @@ Definition tres_eqb (a b : tres) : bool :=
 
 Definition obs_eqb (a b : obs) : bool :=
   match a, b with
-  | ONotify r1 o1 t1 p1 f1, ONotify r2 o2 t2 p2 f2 =>
+  | ONotify r1 o1 t1 p1 f1 k1, ONotify r2 o2 t2 p2 f2 k2 =>
       list_eqb run_eqb r1 r2 && list_eqb out_eqb o1 o2 && list_eqb tres_eqb t1 t2
-      && list_eqb bind_eqb p1 p2 && bind_eqb f1 f2
-  | OOnce c1 r1 v1, OOnce c2 r2 v2 =>
-      (c1 =? c2) && list_eqb (opt_eqb N.eqb) r1 r2 && opt_eqb N.eqb v1 v2
+      && list_eqb bind_eqb p1 p2 && bind_eqb f1 f2 && Bool.eqb k1 k2
+  | OOnce c1 r1 v1 k1, OOnce c2 r2 v2 k2 =>
+      (c1 =? c2) && list_eqb (opt_eqb N.eqb) r1 r2 && opt_eqb N.eqb v1 v2 && Bool.eqb k1 k2
   | OOnceFree n1 d1 f1 m1, OOnceFree n2 d2 f2 m2 =>
       (n1 =? n2) && (d1 =? d2) && (f1 =? f2) && Bool.eqb m1 m2
   | ORace b1 r1 e1, ORace b2 r2 e2 => Bool.eqb b1 b2 && (r1 =? r2) && (e1 =? e2)
@@ -400,8 +401,9 @@ Definition once_spec (cands : list N) (count : N) (reads : list (option N)) (cac
 
 Definition spec_ok (i : input) (o : obs) : bool :=
   match i, o with
-  | Notify c _, ONotify runs outs results peeks final => notify_spec c runs outs results peeks final
-  | OnceRun cands _, OOnce count reads cached => once_spec cands count reads cached
+  | Notify c _, ONotify runs outs results peeks final stuck =>
+      negb stuck && notify_spec c runs outs results peeks final
+  | OnceRun cands _, OOnce count reads cached stuck => negb stuck && once_spec cands count reads cached
   | OnceFree n, OOnceFree n' d f m => (n =? n') && (d =? 1) && (f =? 0) && m
   | Race _ _, ORace built races errors => built && (races =? 0) && (errors =? 0)
   | _, _ => false
